@@ -227,7 +227,8 @@ def flagNames : List (String × (Fixes → Bool) × (Fixes → Fixes)) :=
    ("dupNameErr", (·.dupNameErr), fun f => { f with dupNameErr := true }),
    ("helperClashErr", (·.helperClashErr), fun f => { f with helperClashErr := true }),
    ("kindIdentErr", (·.kindIdentErr), fun f => { f with kindIdentErr := true }),
-   ("stopRefErr", (·.stopRefErr), fun f => { f with stopRefErr := true })]
+   ("stopRefErr", (·.stopRefErr), fun f => { f with stopRefErr := true }),
+   ("reservedErr", (·.reservedErr), fun f => { f with reservedErr := true })]
 
 def fixesOf (s : String) : Option Fixes :=
   match s with
@@ -313,6 +314,7 @@ def Diag.str : Diag → String
   | .noRules => "norules = -"
   | .intTooBig => "inttoobig = -"
   | .stopRef p => s!"stopref = {p}"
+  | .reserved n => s!"reserved {hex n} -"
 
 def showOutcome : R Grammar → String
   | .ok g => "ok " ++ grammarRecs g
